@@ -589,13 +589,14 @@ def callValue (rec : P) (m : Mode) (o : Opts) (sg : Sig) (args : List Val) (kwar
   ((keysFin rec m o sg args).1, valueX rec m o sg.decl (keysFin rec m o sg args).2 kwargs)
 
 /-- `parse_params` as phases followed by the closing `raise_error()` -/
-theorem parseCall_eq (rec : P) (sg : Sig) (c : Ctx) (args : List Val) (kwargs : Data) :
+theorem parseCall_eq (rec : P) (sg : Sig) (c : Ctx) (args : List Val) (kwargs : Data)
+    (hnd : dupKw sg args kwargs = false) :
     parseCall rec sg c args kwargs =
       andThen (andThen (runLoop (posStep rec c.mode c.o sg) c args.zipIdx ([], [])) fun c1 acc =>
         andThen (runLoop posOnlyStep c1 (sg.decl.take sg.nposOnly).zipIdx acc) fun c1' acc' =>
         andThen (parseData rec sg.decl acc'.2 true c1' kwargs) fun c2 kw => (c2, .ok (acc'.1, kw))) finish := by
   unfold parseCall
-  simp only [andThen]
+  simp only [hnd, Bool.false_eq_true, if_false, andThen]
   cases runLoop (posStep rec c.mode c.o sg) c args.zipIdx ([], []) with
   | mk c1 r1 =>
     cases r1 with
@@ -615,13 +616,13 @@ theorem parseCall_eq (rec : P) (sg : Sig) (c : Ctx) (args : List Val) (kwargs : 
             | ok kw => rfl
 
 theorem runCall_collect (W : World) (n : Nat) (sg : Sig) (mx : Option Nat) (hk : capOk mx 0)
-    (o : Opts) (args : List Val) (kwargs : Data) :
+    (o : Opts) (args : List Val) (kwargs : Data) (hnd : dupKw sg args kwargs = false) :
     runCall W n sg ⟨true, mx⟩ o args kwargs =
       if callReports (parse W n) ⟨true, mx⟩ o sg args kwargs = [] then
         .ok (callValue (parse W n) ⟨true, mx⟩ o sg args kwargs)
       else .error (.collected (cap mx (callReports (parse W n) ⟨true, mx⟩ o sg args kwargs))) := by
   unfold runCall
-  rw [parseCall_eq]
+  rw [parseCall_eq _ _ _ _ _ hnd]
   apply ran_finish hk
   unfold callReports callValue posReports posOnlyReports keysFin posFin
   simp only [clean0_mode, clean0_o]
@@ -849,7 +850,13 @@ theorem runCall_strong (W : World) (n : Nat) (sg : Sig) (mC : Mode) (o : Opts) (
     (∃ r, runCall W n sg .ff o args kwargs = .ok r ∧ runCall W n sg mC o args kwargs = .ok r) ∨
     ((∃ x, runCall W n sg .ff o args kwargs = .error x) ∧ ∃ x, runCall W n sg mC o args kwargs = .error x) := by
   unfold runCall
-  rw [parseCall_eq, parseCall_eq]
+  by_cases hnd : dupKw sg args kwargs = true
+  · right
+    unfold parseCall
+    simp only [hnd, if_true]
+    exact ⟨⟨_, rfl⟩, _, rfl⟩
+  have hnd : dupKw sg args kwargs = false := by simpa using hnd
+  rw [parseCall_eq _ _ _ _ _ hnd, parseCall_eq _ _ _ _ _ hnd]
   have hg := parse_good W mC n
   simp only [clean0_mode, clean0_o, posStep_eq hg]
   have hs : Sim o mC
